@@ -17,7 +17,8 @@ ASSUMPTIONS = ["spec/membank_layout.py transcribes IEC 62386-102 9.10.6/9.10.7 a
                "scaled numbers and temperatures are not 'plain numbers': their inverse is only recorded"]
 EXHAUSTIVE = {"quick": False, "thorough": False}
 REQUIRED_ANCHORS = {"all": ["decoded", "layout_rows_checked", "inverse_checked", "mask_patterns", "tmask_patterns",
-                            "invalid_patterns", "values_claimed"]}
+                            "invalid_patterns", "values_claimed", "declared_mask_patterns", "declared_decodes",
+                            "declared_overlaps", "declared_lockability"]}
 SHARD_TIMEOUT = {"quick": 600, "thorough": 3000}
 
 
@@ -26,6 +27,7 @@ def plan(tier, seed):
     sh = [{"kind": "decode", "part": p, "of": n} for p in range(n)]
     sh.append({"kind": "layout"})
     sh.append({"kind": "inverse"})
+    sh.append({"kind": "declarations"})
     return sh
 
 
@@ -296,6 +298,95 @@ def run_inverse(seed, res):
     res.sample({"inverse": "value_to_raw -> decode for plain numbers and ASCII strings"})
 
 
+def run_declarations(seed, res):
+    """Values declared through the public API (what a user of the library writes for a vendor-specific bank): the rules the
+    shipped map relies on are enforced for every declaration - MASK/TMASK patterns per width and signedness, overlap refused,
+    lockable locations only in banks that have a lock."""
+    import dali.memory.location as loc
+    T = loc.MemoryType
+    r = rng(seed, "C11", "declarations")
+    n = [0]
+
+    def declare(bank, base, first, width, type_=None, **attrs):
+        n[0] += 1
+        body = {"bank": bank, "locations": loc.MemoryRange(first, first + width - 1, type_=type_ or T.ROM), **attrs}
+        return type(f"Declared{n[0]}", (base,), body)
+
+    # MASK / TMASK patterns, signed and unsigned, widths 1..4
+    for width in (1, 2, 3, 4):
+        for signed in (False, True):
+            bank = loc.MemoryBank(120 + width, 0xFE)
+            cls = declare(bank, loc.NumericValue, 0x10, width, signed=signed, mask_supported=True, tmask_supported=True)
+            top = (1 << (8 * width - 1)) - 1 if signed else (1 << (8 * width)) - 1
+            want_mask = top.to_bytes(width, "big")
+            want_tmask = (top - 1).to_bytes(width, "big")
+            res.evaluations += 1
+            res.hit("declared_mask_patterns")
+            wit = {"width": width, "signed": signed}
+            if bytes(cls.mask) != want_mask or bytes(cls.tmask) != want_tmask:
+                res.violation("C11/declared/mask-pattern", f"{width}-byte {'signed' if signed else 'unsigned'} value: MASK pattern "
+                              f"{bytes(cls.mask).hex()}, TMASK {bytes(cls.tmask).hex()}; the largest and second largest "
+                              f"representable numbers are {want_mask.hex()} / {want_tmask.hex()}", wit)
+                continue
+            probes = {want_mask: "MASK", want_tmask: "TMASK"}
+            for v in {0, 1, top - 2, (1 << (8 * width)) - 1, (1 << (8 * width)) - 2, 1 << (8 * width - 1)} | \
+                    {r.getrandbits(8 * width) for _ in range(40)}:
+                raw = v.to_bytes(width, "big")
+                if raw in probes:
+                    continue
+                probes[raw] = int.from_bytes(raw, "big", signed=signed)
+            for raw, want in probes.items():
+                res.evaluations += 1
+                res.hit("declared_decodes")
+                flag = cls.check_raw(raw)
+                got = flag.value if flag is not None else cls.raw_to_value(raw)
+                if got != want:
+                    res.violation("C11/declared/decode", f"{width}-byte {'signed' if signed else 'unsigned'} value, raw {raw.hex()}: "
+                                  f"library gives {got!r}, expected {want!r}", {**wit, "raw": raw.hex()})
+    # overlap is refused, also for a partial overlap at either end
+    for (f1, w1, f2, w2) in ((0x10, 2, 0x11, 1), (0x10, 2, 0x0F, 2), (0x10, 1, 0x10, 1), (0x20, 4, 0x21, 2), (0x03, 1, 0x03, 3)):
+        bank = loc.MemoryBank(130, 0xFE)
+        declare(bank, loc.NumericValue, f1, w1)
+        res.evaluations += 1
+        res.hit("declared_overlaps")
+        try:
+            declare(bank, loc.NumericValue, f2, w2)
+            res.violation("C11/declared/overlap-accepted", f"a value at {f2:#x}..{f2 + w2 - 1:#x} was accepted although "
+                          f"{f1:#x}..{f1 + w1 - 1:#x} is taken", {"first": [f1, w1], "second": [f2, w2]})
+        except loc.MemoryLocationOverlap:
+            pass
+        except Exception as e:
+            res.violation("C11/declared/overlap-wrong-exception", f"overlap raised {type(e).__name__}", {})
+    # disjoint neighbours are fine
+    bank = loc.MemoryBank(131, 0xFE)
+    try:
+        declare(bank, loc.NumericValue, 0x10, 2)
+        declare(bank, loc.NumericValue, 0x12, 2)
+        declare(bank, loc.NumericValue, 0x0E, 2)
+    except Exception as e:
+        res.violation("C11/declared/neighbours-refused", f"adjacent values raised {type(e).__name__}", {})
+    # lockable locations need a bank with a lock byte that locks (a latch alone is not a lock)
+    for has_lock in (False, True):
+        for has_latch in (False, True):
+            for ty in (T.NVM_RW_L, T.NVM_RW, T.ROM):
+                bank = loc.MemoryBank(140, 0xFE, has_lock=has_lock, has_latch=has_latch)
+                res.evaluations += 1
+                res.hit("declared_lockability")
+                wit = {"has_lock": has_lock, "has_latch": has_latch, "type": ty.name}
+                must_refuse = ty == T.NVM_RW_L and not has_lock
+                try:
+                    declare(bank, loc.NumericValue, 0x10, 2, type_=ty)
+                    if must_refuse:
+                        res.violation("C11/declared/lockable-without-lock", f"a lockable (NVM-RW-L) value was accepted in a bank with "
+                                      f"has_lock={has_lock}, has_latch={has_latch}", wit)
+                except loc.LockingNotSupported:
+                    if not must_refuse:
+                        res.violation("C11/declared/lockable-refused", f"{ty.name} value refused in a bank with has_lock={has_lock}", wit)
+                except Exception as e:
+                    res.violation("C11/declared/lockability-wrong-exception", f"raised {type(e).__name__}", wit)
+    res.sample({"declared": "MASK/TMASK patterns for widths 1..4 signed/unsigned, overlaps, lockability per bank kind"})
+
+
 def run_shard(desc, tier, seed):
     res = Result()
     if "replay" in desc:
@@ -311,6 +402,8 @@ def run_shard(desc, tier, seed):
         run_decode(desc, tier, seed, res)
     elif k == "layout":
         run_layout(res)
+    elif k == "declarations":
+        run_declarations(seed, res)
     else:
         run_inverse(seed, res)
     return res
